@@ -68,6 +68,22 @@ def render_ok(rendered, ref_options):
     return f'pieces {pieces!r} do not carry the text {sorted(ref_options)!r}'
 
 
+class _Boom(Exception):
+    pass
+
+
+class _BaseBoom(BaseException):
+    pass
+
+
+class _Poison:
+    def __init__(self, exc):
+        self.exc = exc
+
+    def __str__(self):
+        raise self.exc('poisoned item')
+
+
 def judge(case):
     R.FORM[0] = case.get('form')
     try:
@@ -179,6 +195,37 @@ def _judge(case):
             err = render_ok(str(cm2), {tuple(now)}) if now else (None if str(cm2) == '' else 'non-empty rendering')
             if err:
                 bad(f'render-after-{how}', f'{err} | lines now {now!r}')
+        # FAILURE PATHS: an extension that is refused or dies half-way (an item whose __str__ raises, a non-str line) leaves
+        # the comment a comment with its text; a later successful extension shows as comment lines too
+        for how in ('iadd', 'append', 'add', 'lines-setter', 'iadd-base', 'append-base', 'iadd-twice'):
+            cm3 = Comment(R.build(enc, TextBlock))
+            keep = cm3
+            poison = _Poison(_BaseBoom if how.endswith('base') else _Boom)
+            for _rep in range(2 if how == 'iadd-twice' else 1):
+                try:
+                    if how.startswith('iadd'):
+                        cm3 += ['new', poison, 'text']
+                    elif how.startswith('append'):
+                        cm3.append({'a': 'new', 'b': [poison]})
+                    elif how == 'add':
+                        _ = cm3 + [poison]
+                    else:
+                        cm3.lines = ['new', 3]
+                except (Exception, _BaseBoom):  # pylint: disable=broad-except
+                    pass
+            if cm3 is not keep or not isinstance(cm3, Comment):
+                bad(f'refused-{how}-replaced-the-comment', type(cm3).__name__)
+                continue
+            if list(cm3.lines) != before:
+                bad(f'refused-{how}-changed-the-comment', f'before={before!r} after={cm3.lines!r}')
+                continue
+            rendered = str(cm3)
+            if rendered != first:
+                bad(f'render-after-refused-{how}', f'{rendered!r} vs {first!r}')
+            cm3 += ['then', 'ok']
+            err = render_ok(str(cm3), {tuple(before) + ('then', 'ok')})
+            if err or not isinstance(cm3, Comment):
+                bad(f'render-after-refused-{how}-and-retry', f'{err} type={type(cm3).__name__}')
         # as part of a bigger block (how the generator uses it)
         blk = TextBlock([Comment(R.build(enc, TextBlock)), 'int code;'])
         pieces = union_split(str(blk))
